@@ -190,6 +190,18 @@ class BaseState(ABC):
             Signal to check whether or not the operators sum up to identity,
             True by default
         """
+        from photon_weave.state.composite_envelope import CompositeEnvelope
+        from photon_weave.state.envelope import Envelope
+
+        # If the state lives in a product space, the channel is applied there
+        if isinstance(self.index, int):
+            assert isinstance(self.envelope, Envelope)
+            self.envelope.apply_kraus(operators, self)
+            return
+        if isinstance(self.index, list) or isinstance(self.index, tuple):
+            assert isinstance(self.composite_envelope, CompositeEnvelope)
+            self.composite_envelope.apply_kraus(operators, self)
+            return
 
         assert isinstance(self.expansion_level, ExpansionLevel)
         while self.expansion_level < ExpansionLevel.Matrix:
